@@ -15,6 +15,11 @@ def c01_direct(shapes): return [AB(na, nb, ranks, SEL=s, DIRECT=1) for (na, nb, 
 def _undecidable(c):
     return (c.get('SEL') in (2, 3) and (c['NA'], c['NB'], c['SYM_RANKS']) == (2, 2, '{0,0,1}')) or (c.get('SEL') == 2 and 'BTRI' in c and 'ATRI' not in c and (c['NA'], c['NB']) == (3, 2))
 
+# A over 2 states: a->p0, a->p1, g(x,y)->p1 for the 4 pairs; B over 4 states: a->s0, a->s1, a->s2, g(s2,s0)->s1, g(s3,s0)->s1, g(s2,s2)->s2,
+# g(s2,s3)->s2, g(s2,s2)->s3, g(s2,s3)->s3 (21 bits with the final sets): recursion in A meets macro-states of B that are entered
+# repeatedly - a call of the non-recursive downward algorithm assumes itself, fails, and its stack frame is recycled
+RECYC = {'AMASK': '0x3c3ul', 'BMASK': '0xc000c00110000007ul'}
+def c01_recyc(sels): return [AB(2, 4, [0, 2], SEL=s, _time=1500, **RECYC) for s in sels]
 # the same queries under the heap model that hands released addresses out again (engine option --reuse-addresses, LIFO per
 # size class like the C library): the inclusion checkers memoise set comparisons under the ADDRESSES of macro-states and
 # invalidate the entries when a macro-state dies; a stale entry only matters when a later macro-state gets the same address
@@ -29,8 +34,8 @@ CHECKS = {
   'outside': 'more than 2 states per operand, rank > 2, more than 3 symbols, simulation relations other than the one the library computes',
   'harnesses': [
     {'name': 'incl', 'src': 'harness/C01/incl.cc', 'tus': TREE_INCL,
-     'configs': {'quick': c01_configs([(1, 1, [0, 0, 1]), (2, 1, [0, 1]), (1, 2, [0, 1]), (2, 2, [0, 1]), (2, 1, [0, 2]), (1, 2, [0, 2])]) + c01_tri((0, 2, 4, 6)) + c01_joint((2, 4, 6)) + c01_direct([(2, 1, [0, 1]), (1, 2, [0, 2])]) + c01_reuse([(1, 2, [0, 2]), (2, 1, [0, 2])], (0, 2, 4, 6)) + c01_reuse([(2, 2, [0, 1])], range(8)),
-                 'thorough': [c for c in c01_configs([(1, 1, [0, 0, 1]), (2, 1, [0, 1]), (1, 2, [0, 1]), (2, 2, [0, 1]), (2, 1, [0, 2]), (1, 2, [0, 2]), (2, 2, [0, 0, 1])], heavy=True) + c01_tri(range(8), _heavy=1, _mem_gb=30, _time=2500) + c01_tri((0, 2, 4, 6), both=False, _heavy=1, _mem_gb=30, _time=2500) + c01_joint(range(8)) + c01_direct([(2, 1, [0, 1]), (1, 2, [0, 2]), (2, 2, [0, 1]), (2, 1, [0, 2])]) + c01_reuse([(1, 2, [0, 2]), (2, 1, [0, 2])], (0, 2, 4, 6)) + c01_reuse([(2, 2, [0, 1]), (1, 1, [0, 0, 1])], range(8)) + [dict(c, _reuse=1) for c in c01_joint((2, 4, 6)) + c01_tri((0, 4, 6))] if not _undecidable(c)]},
+     'configs': {'quick': c01_configs([(1, 1, [0, 0, 1]), (2, 1, [0, 1]), (1, 2, [0, 1]), (2, 2, [0, 1]), (2, 1, [0, 2]), (1, 2, [0, 2])]) + c01_tri((0, 2, 4, 6)) + c01_joint((2, 4, 6)) + c01_direct([(2, 1, [0, 1]), (1, 2, [0, 2])]) + c01_reuse([(1, 2, [0, 2]), (2, 1, [0, 2])], (0, 2, 4, 6)) + c01_reuse([(2, 2, [0, 1])], range(8)) + c01_recyc((2,)),
+                 'thorough': [c for c in c01_configs([(1, 1, [0, 0, 1]), (2, 1, [0, 1]), (1, 2, [0, 1]), (2, 2, [0, 1]), (2, 1, [0, 2]), (1, 2, [0, 2]), (2, 2, [0, 0, 1])], heavy=True) + c01_tri(range(8), _heavy=1, _mem_gb=30, _time=2500) + c01_tri((0, 2, 4, 6), both=False, _heavy=1, _mem_gb=30, _time=2500) + c01_joint(range(8)) + c01_direct([(2, 1, [0, 1]), (1, 2, [0, 2]), (2, 2, [0, 1]), (2, 1, [0, 2])]) + c01_reuse([(1, 2, [0, 2]), (2, 1, [0, 2])], (0, 2, 4, 6)) + c01_reuse([(2, 2, [0, 1]), (1, 1, [0, 0, 1])], range(8)) + [dict(c, _reuse=1) for c in c01_joint((2, 4, 6)) + c01_tri((0, 4, 6))] + c01_recyc((0, 2, 3, 4, 6)) if not _undecidable(c)]},
      'selftest_config': AB(1, 1, [0, 0, 1], SEL=2), 'selftests': ['VS_SELFTEST_1']},
   ],
  }
